@@ -13,7 +13,9 @@ dictionaries x activation_bits x transfer_weights (x prefer_qadaptiveactivation,
    hyper-parameters preserved, source model / weights / caller dictionaries not modified, weights
    transferred when requested.
 """
+import contextlib
 import copy
+import io
 import json
 import re
 
@@ -170,11 +172,20 @@ class Gen:
   def family_img(self):
     body = []
     n = int(self.rng.integers(2, 6))
+    size = 6
     for _ in range(n):
       r = self.rng.random()
       if r < 0.5:
-        body.append(self.conv2d_like())
+        c = self.conv2d_like()
+        k, st = c["kw"]["kernel_size"], c["kw"].get("strides", 1)
+        if c["kw"]["padding"] == "valid" and size - k + 1 < 1:
+          c["kw"]["padding"] = "same"
+        if c["kw"]["padding"] == "valid":
+          size = size - k + 1
+        size = -(-size // st)
+        body.append(c)
       elif r < 0.62:
+        size = -(-size // 2)
         body.append({"t": self.ch(["AveragePooling2D", "AveragePooling2D", "MaxPooling2D"]),
                      "kw": {"pool_size": 2, "padding": "same"}})
       else:
@@ -197,13 +208,20 @@ class Gen:
   def family_seq(self):
     body = []
     n = int(self.rng.integers(1, 4))
+    size = 4
     for _ in range(n):
       r = self.rng.random()
       if r < 0.25:
-        body.append({"t": self.ch(["Conv1D", "SeparableConv1D"]),
-                     "kw": {"filters": int(self.ch([2, 3])), "kernel_size": int(self.ch([1, 2])),
-                            "padding": self.ch(["same", "valid", "causal"]) if False else self.ch(["same", "valid"]),
-                            "use_bias": self.p(0.65), "activation": self.act_name()}})
+        c = {"t": self.ch(["Conv1D", "SeparableConv1D"]),
+             "kw": {"filters": int(self.ch([2, 3])), "kernel_size": int(self.ch([1, 2])),
+                    "padding": self.ch(["same", "valid"]),
+                    "use_bias": self.p(0.65), "activation": self.act_name()}}
+        if c["kw"]["padding"] == "valid":
+          if size - c["kw"]["kernel_size"] + 1 < 1:
+            c["kw"]["padding"] = "same"
+          else:
+            size = size - c["kw"]["kernel_size"] + 1
+        body.append(c)
       elif r < 0.6:
         body.append(self.rnn(True))
       elif r < 0.8:
@@ -560,6 +578,7 @@ class Env:
     def fold(model):
       r = self.orig_fold(model)
       self.fold = r
+      self.captured = None      # convert_to_folded_model clones through quantized_model_from_json
       return r
 
     self._a, self._b = from_json, fold
@@ -598,7 +617,8 @@ def reference_config(qcls, cfg, qvals, dels):
   c = {k: copy.deepcopy(v) for k, v in cfg.items() if k not in dels}
   for k, v in qvals.items():
     c[k] = v
-  ref = getattr(qkeras, qcls).from_config(c)
+  with contextlib.redirect_stdout(io.StringIO()):
+    ref = getattr(qkeras, qcls).from_config(c)
   return to_jsonable(ref.get_config())
 
 
@@ -643,7 +663,11 @@ def run(run: core.Run, tier: str):
     for ci, (stream, spec, qc, flags) in enumerate(cases):
       keras.backend.clear_session()
       tf.random.set_seed(run.seed * 100003 + ci)
-      model = build_model(keras, spec) if "custom" not in spec else build_custom(keras, spec)
+      try:
+        model = build_model(keras, spec) if "custom" not in spec else build_custom(keras, spec)
+      except Exception:  # pylint: disable=broad-except
+        run.count("generator_spec_unbuildable")     # a spec Keras itself rejects (deterministic)
+        continue
       res = execute(env, qu, model, qc, flags)
       res.update({"stream": stream, "spec": spec, "qc": qc, "flags": flags, "ci": ci})
       lines.append({"op": "rewrite", "layers": res["src_layers"], "qc": qc,
@@ -774,10 +798,11 @@ def execute(env, qu, model, qc, flags):
   env.reset()
   res = {"err": None, "stage": None, "qmodel": None, "base": None}
   try:
-    qm = qu.model_quantize(model, qc, flags["activation_bits"], custom_objects=co,
-                           transfer_weights=flags["transfer_weights"],
-                           prefer_qadaptiveactivation=flags["prefer_qadaptiveactivation"],
-                           enable_bn_folding=flags["enable_bn_folding"])
+    with contextlib.redirect_stdout(io.StringIO()):     # QAdaptiveActivation prints warnings
+      qm = qu.model_quantize(model, qc, flags["activation_bits"], custom_objects=co,
+                             transfer_weights=flags["transfer_weights"],
+                             prefer_qadaptiveactivation=flags["prefer_qadaptiveactivation"],
+                             enable_bn_folding=flags["enable_bn_folding"])
     res["qmodel"] = qm
   except Exception as e:  # pylint: disable=broad-except
     res["err"] = err_name(e)
